@@ -23,6 +23,16 @@ D = {
  "C17-c": ("tsqr layout check uses chunksize (the regular row chunk)", "qr/svd with a short LAST row chunk, e.g. (10, 3) chunks (4, 3)"),
  "C18-c": ("Spec.__eq__ compares (executor name, spec.executor_options) and so ignores the options of an executor object", "two Specs equal but for executor objects of one class with different options"),
  "C19-c": ("_r1_is_too_big: allowed_mem // (copies*2) without subtracting reserved_mem", "reserved_mem > 0 and a tall-skinny QR whose R1 lies between (allowed-reserved)/8 and allowed/8"),
+ "C01-d": ("tree_reduce: number of combine rounds = ceil(log(total blocks, total fan-in)) instead of the per-axis maximum", "a reduction over >= 2 axes whose block grid is skewed with more than one block per reduced axis (9x3, 10x5, 9x3x2)"),
+ "C03-d": ("Plan._finalize checks projected_mem > allowed_mem on the plan as built, before optimization", "an optimizer without the peak-memory veto (fuse_all / always_fuse / user function) on a fan-in expression with a tight allowed_mem"),
+ "C04-d": ("peak_projected_mem counts projected_mem - reserved_mem for every fused predecessor after the first", "reserved_mem > 0, >= 2 fused predecessors, the heavy one not first and heavier than the consumer"),
+ "C06-d": ("nanmedian maps nxp.nanmedian(..., overwrite_input=a.flags.writeable) over the blocks", "an in-memory asarray source whose reduced axis is one chunk, an in-process executor, and a second consumer / duplicate execution"),
+ "C07-d": ("visit_node_generations hand-rolled: outstanding inputs = distinct predecessors, decremented once per edge", "compute_arrays_in_parallel=True and an op with a repeated input plus a deeper input (as C07-a)"),
+ "C08-d": ("a failed attempt whose twin is still running deletes the backup pairing", "use_backups, a launched backup, one of the twins failing for good while the slow survivor keeps running: third submission"),
+ "C09-d": ("ZarrV3ArrayGroup gains ndim / nchunks / nchunks_initialized (read from its first field only)", "structured intermediate written to storage, crash between the field writes of the op's last task, resume"),
+ "C12-d": ("same change as C17-b (chosen independently): stack takes a = arrays[0] before unify_chunks", "as C17-b"),
+ "C16-d": ("from_array writes in-memory NumPy inputs over 1 MB into the intermediate store at build time", "cubed.from_array(np_array) with more than 1 MB of data"),
+ "C18-d": ("check_array_specs removed from arrays_to_dag", "cubed.plan(a, b) / cubed.visualize(a, b) over arrays of different Specs"),
  "C01-a": ("moveaxis builds the permutation in source order instead of destination order", "ndim >= 3 and at least two axes moved in a non-order-preserving way (12 of 81 source/destination pairs on 3-d)"),
  "C01-b": ("constant pad uses the leading fill value for the trailing pad", "constant_values given as a (before, after) pair with different values and pad_after > 0"),
  "C02-a": ("always_fuse override evaluated before the requested-array guard", "an always_fuse style optimizer + several requested arrays where one is a single-consumer input of another's op"),
